@@ -2,9 +2,12 @@ package props
 
 import (
 	"bytes"
+	"encoding/binary"
 	"fmt"
 	"reflect"
 
+	of "github.com/contiv/libOpenflow/openflow13"
+	"github.com/contiv/libOpenflow/protocol"
 	"github.com/contiv/libOpenflow/util"
 
 	"vh/fw"
@@ -190,6 +193,9 @@ func c13Eval(c *fw.Ctx, data any) {
 		c13LateHistories(c, m, kind, hs)
 	}
 	c13HistoryIndependence(c, cs, kind)
+	if cs.Mode != "dhcp" && cs.Mode != "lldp" {
+		c13RawChild(c, cs, kind, r)
+	}
 	// a value built and encoded in the previous case is an independent value: everything this case built, encoded and
 	// decoded since must have left it alone
 	if c13Prev.v != nil {
@@ -508,5 +514,81 @@ func c13LateHistories(c *fw.Ctx, m *rec.Rec, kind string, hs [][]int) {
 		if bad {
 			return
 		}
+	}
+}
+
+
+// c13RawChild: the slot a container has for an embedded message or payload holds a pre-encoded util.Buffer (what a
+// relay or a cache puts there), with a length field of its own that need not say what the container thinks. The
+// container is sized and encoded repeatedly: the answers must agree and the buffer must still hold the bytes it was
+// given (it hands out its own storage when asked to encode itself, so a container that edits what its child returned
+// edits the child).
+func c13RawChild(c *fw.Ctx, cs *c06Case, kind string, r *prng.R) {
+	p, pv, st := fw.Recover(func() {
+		v, err := buildValue(cs)
+		if err != nil || isNil(v) {
+			return
+		}
+		var slot *util.Message
+		switch x := v.(type) {
+		case *of.VendorHeader:
+			if ba, ok := x.VendorData.(*of.BundleAdd); ok {
+				slot = &ba.Message
+			}
+		case *of.BundleAdd:
+			slot = &x.Message
+		case *of.PacketOut:
+			slot = &x.Data
+		case *protocol.Ethernet:
+			slot = &x.Data
+		case *protocol.IPv4:
+			slot = &x.Data
+		case *protocol.IPv6:
+			slot = &x.Data
+		}
+		if slot == nil || isNil(*slot) {
+			return
+		}
+		cb, err := (*slot).MarshalBinary()
+		if err != nil {
+			return
+		}
+		given := append([]byte(nil), cb...)
+		if len(given) >= 4 && r.Chance(2, 3) {
+			binary.BigEndian.PutUint16(given[2:], uint16(r.Pick(0, 8, len(given)-1, len(given)+8, 0xffff)))
+		}
+		raw := util.NewBuffer(append([]byte(nil), given...))
+		*slot = raw
+		c.Count("raw_children", 1)
+		var first []byte
+		size := -1
+		for i, op := range []int{0, 1, 1, 0, 1} {
+			if op == 0 {
+				l := int(v.Len())
+				if size >= 0 && l != size {
+					c.Violation(kind, "repeat", "raw-child:size-changed", fmt.Sprintf("step %d: size %d, earlier %d", i, l, size))
+					return
+				}
+				size = l
+			} else {
+				b, err := v.MarshalBinary()
+				if err != nil {
+					return
+				}
+				if first == nil {
+					first = append([]byte(nil), b...)
+				} else if !bytes.Equal(first, b) {
+					c.Violation(kind, "repeat", "raw-child:bytes-changed", fmt.Sprintf("step %d: the container encodes differently the second time\nnow:    %s\nbefore: %s", i, hexHead(b), hexHead(first)))
+					return
+				}
+			}
+			if !bytes.Equal(raw.Bytes(), given) {
+				c.Violation(kind, "disturbed", "raw-child:child-bytes-changed", fmt.Sprintf("after step %d the pre-encoded child no longer holds the bytes it was given\ngiven: %s\nnow:   %s", i, hexHead(given), hexHead(raw.Bytes())))
+				return
+			}
+		}
+	})
+	if p {
+		c.Violation(kind, "panic", "raw-child:"+fw.LibFrame(st), pv+"\n"+fw.TrimStack(st))
 	}
 }
